@@ -141,6 +141,50 @@ Proof.
 Qed.
 
 
+(* target[{...}] = number : the number fills the addressed region, nothing else changes *)
+Theorem setitem_number_fills (a a' : farr) kvs (c : R) :
+  wf a -> wf_dict (adims a) no_asg kvs ->
+  let F := asg_of no_asg kvs in
+  let dout := flat_map (out_for F) (adims a) in
+  no_lists F (adims a) -> distinct_items F (adims a) ->
+  setitem R rO rI radd rmul a (KDict kvs) (RNum R c) = Ok a' ->
+  adims a' = adims a
+  /\ (forall e, (forall d, In d dout -> lookup e (dletter d) < dlen d) -> den a' (src_env F (adims a) e) = c)
+  /\ (forall e, (forall d, In d (adims a) -> lookup e (dletter d) < dlen d) ->
+        ~ in_region F (adims a) e -> den a' e = den a e).
+Proof.
+  intros Hwa Hw F dout Hnl Hdi Hset. pose proof Hwa as [Hn Hlen].
+  set (ds := adims a) in *.
+  unfold setitem in Hset.
+  pose proof (mk_handler_dict ds kvs Hn Hw) as Hh. fold ds in Hset. rewrite Hh in Hset. clear Hh.
+  cbn [bind h_dims_out h_sels] in Hset. fold F in Hset.
+  set (raw := map (sel_for F) ds) in *.
+  assert (Hval : valid_asg F ds) by (apply valid_asg_of; auto; intros d v0 _ E; discriminate).
+  assert (Hl : length raw = length (shp (a_nd R a))).
+  { unfold raw, a_nd; simpl. unfold dshape. rewrite !map_length. reflexivity. }
+  assert (Hok : Forall2 (fun r m => raw_ok r m = true) raw (shp (a_nd R a))) by (apply raw_ok_handler; exact Hval).
+  assert (Hnd : Forall raw_nodup raw) by (apply raw_nodup_handler; auto).
+  destruct (setindex_fill R rO (a_nd R a) raw c Hl Hok Hnd Hlen) as (w & Hw' & Hsw & Hlw & Hhit & Hframe).
+  change (shp (a_nd R a)) with (dshape ds) in *. rewrite Hw' in Hset. cbn [bind] in Hset.
+  injection Hset as <-. cbn [adims]. split; [reflexivity|].
+  assert (Eout : out_shape raw (dshape ds) = dshape dout) by (unfold raw; apply out_shape_handler; exact Hnl).
+  split.
+  - intros e He.
+    unfold ArrayLemmas.den. unfold Einsum.den_nd, a_nd, aletters. cbn [adims avals shp dat]. fold ds.
+    rewrite (lookup_src_env F ds e Hn). rewrite <- (pull_handler F ds e). fold raw. fold dout.
+    apply Hhit. rewrite Eout. clear -He. induction dout as [|d l IH]; simpl; constructor.
+    + apply He. left. reflexivity.
+    + apply IH. intros d' Hd'. apply He. right. exact Hd'.
+  - intros e He Hno.
+    unfold ArrayLemmas.den, Einsum.den_nd, a_nd, aletters. cbn [adims avals shp dat]. fold ds.
+    apply Hframe.
+    + clear -He. induction ds as [|d l IH]; simpl; constructor.
+      * apply He. left. reflexivity.
+      * apply IH. intros d' Hd'. apply He. right. exact Hd'.
+    + intros idx Hidx Epull. apply Hno. unfold in_region. fold ds. fold raw. rewrite <- Epull.
+      apply (pull_hits raw (dshape ds)); auto.
+Qed.
+
 (* whole-array assignment is the dict key without entries *)
 Lemma setitem_ellipsis_is_empty_dict (a y : farr) :
   setitem R rO rI radd rmul a KEllipsis (RArr R y) = setitem R rO rI radd rmul a (KDict []) (RArr R y).
